@@ -56,7 +56,7 @@ specs = {
          "every pool key x JWK alg attribute x private/public x explicit alg x route {setkey, callback sets key only, callback sets key and alg, setkey then callback removes key}; token decoded by an independent reader", True),
     ])'''),
  "c04": dict(doc="C04 -- claim checks exactly as configured: theorems + claims suite under a controlled clock.",
-   mods=["Jwt.Props.C04"], files=["Jwt/Props/C04.lean"], gen=5,
+   mods=["Jwt.Props.C04"], files=["Jwt/Props/C04.lean", "Jwt/Lemmas/PipelineClaims.lean"], gen=8,
    level="Lean theorems: exp/nbf thresholds, type rule, generated defaults and disable bound, string equality, enforcement for every accepted token, and refinement of every configuration history to a last-writer-wins policy (induction over op lists). Tied to the code by threshold/leeway/clock grids, 64-bit extremes, every JSON type per claim, string pairs, and exhaustive configuration sequences judged against the property's own semantics.",
    assume=[],
    body='''    F.run_suites(ctx, model_ok, deep, [
